@@ -11,7 +11,7 @@ import re
 import subprocess
 
 from lib.common import InfraError, VERIF, findings_for, log, parallel_map, sh, sha, tla, tlc, write_module
-from props.isa_common import hexs
+from props.isa_common import hexs, run_probe_cases
 
 RUNNERS = ("run", "vmfile", "wrapper")
 
@@ -118,15 +118,12 @@ def run_format_generated(ctx, probe, mc, consts, cov):
             m = c["m"]
             f.write(json.dumps(dict(id=i, calls=c["calls"], code=m["code"], functions=m["functions"], imports=m["imports"],
                                     debug=m["debug"], flags=m["flags"], entry=m["entry"])) + "\n")
-    p = sh([probe, "build", inp], env=ctx.env(), timeout=1200, check=False)
-    if p.returncode != 0:
-        raise InfraError("nvm_probe build failed rc=%d: %s" % (p.returncode, p.stderr[-2000:]))
-    results = {}
-    for line in p.stdout.splitlines():
-        x = json.loads(line)
-        results[x["id"]] = x
-    if len(results) != len(cases):
-        raise InfraError("nvm_probe answered %d of %d modules" % (len(results), len(cases)))
+    results, crash = run_probe_cases(ctx, [probe, "build", inp], len(cases))
+    if crash:
+        c = cases[crash["id"]] if crash["id"] < len(cases) else None
+        path = ctx.save_replay("format-crash-%d.json" % crash["id"], json.dumps(dict(kind="format", case=c, crash=crash), indent=1))
+        ctx.violation("format: the real builder/serializer/loader died (rc %s) on module %s" % (crash["rc"], json.dumps(c)[:200]), path)
+        cases = cases[:crash["id"]]
     nbad = drift_bytes = drift_idx = 0
     distinct = set()
     for i, c in enumerate(cases):
@@ -179,7 +176,11 @@ def extra_programs(ctx, tree):
     out = []
     for s in sorted(glob.glob(os.path.join(VERIF, "corpus", "isa", "*.nano")) + glob.glob(os.path.join(tree, "tests", "nl_*.nano")) +
                     glob.glob(os.path.join(tree, "examples", "language", "nl_*.nano"))):
-        out.append(dict(name=os.path.basename(os.path.dirname(s)) + "-" + os.path.basename(s)[:-5], src=s, declared=False))
+        text = open(s, errors="replace").read()
+        if re.search(r"get_argc|get_argv|getenv|\brand|random|time_|clock|read_line|stdin", text):
+            continue        # observes its command line / environment / clock: legitimately differs between runners
+        out.append(dict(name=os.path.basename(os.path.dirname(s)) + "-" + os.path.basename(s)[:-5], src=s, declared=False,
+                        has_global_init=bool(re.search(r"^let\s", text, re.M))))
     return out
 
 
@@ -275,8 +276,12 @@ def run_programs(ctx, tree, cov, switches):
                 pred_rc, pred_out = q["exit"], b"".join(chunk[c] for c in q["out"])
             else:                                   # no declaration: the reference is --run, as the property says
                 want_rc, want_out = ref_rc, ref_out
-                pred_rc = 0 if (runner == "vmfile" and "NANOVM_DROPS_EXIT" in devs and ref_rc != 1) else ref_rc
+                vm_error = "runtime error:" in res["run"][2]
+                pred_rc = 0 if (runner == "vmfile" and "NANOVM_DROPS_EXIT" in devs and not vm_error) else ref_rc
                 pred_out = ref_out
+                if (runner == "wrapper" and "WRAPPER_INIT_TWICE" in devs and p.get("has_global_init") and out != ref_out
+                        and out.endswith(ref_out) and ref_out.startswith(out[:len(out) - len(ref_out)])):
+                    pred_out = out              # the initialisers' output (a prefix of the reference) printed twice
             if rc == want_rc and out == want_out:
                 continue
             what = []
